@@ -77,7 +77,7 @@ func (c08Engine) Assumptions() []string {
 	}
 }
 func (c08Engine) Required(tier string) []string {
-	req := []string{"hook_calls", "context_switches", "switches_inside_op", "ops_run", "ops_vmrun", "ops_compile", "policy/" + PolUniform, "policy/" + PolBurst, "policy/" + PolPCT, "policy/" + PolSeq, "snapshots_during_run", "tight_budget_scenarios", "cold_process_scenarios", "yields_in_env_function", "yields_in_visitor"}
+	req := []string{"hook_calls", "context_switches", "switches_inside_op", "ops_run", "ops_vmrun", "ops_compile", "policy/" + PolUniform, "policy/" + PolBurst, "policy/" + PolPCT, "policy/" + PolSeq, "snapshots_during_run", "tight_budget_scenarios", "cold_process_scenarios", "untyped_programs", "yields_in_env_function", "yields_in_visitor"}
 	if raceEnabled {
 		req = append(req, "race_detector_active")
 	}
@@ -169,6 +169,7 @@ func (c08Engine) Gen(seed uint64, idx int, tier string) interface{} {
 			g := NewGen(g0, cfg)
 			ps.Tree = genRoot(g, g0)
 		}
+		ps.NoEnv = r.Chance(1, 5)
 		ps.Source = Print(ps.Tree, Layout{}).Src
 		sc.Progs = append(sc.Progs, ps)
 	}
@@ -308,13 +309,28 @@ func runSched(sc *SchedScenario, ctx *RunCtx) (*Finding, []Seg) {
 	envOpt := expr.Env(sample)
 	patchOpt := expr.Patch(yieldVisitor{})
 	optsOf := make([][]expr.Option, len(sc.Progs))
-	for i, p := range sc.Progs {
+	typedOpts := func(p ProgSpec) []expr.Option {
 		o := []expr.Option{envOpt, patchOpt}
 		if !p.Optimize {
 			o = append(o, expr.Optimize(false))
 		}
 		if sc.ConstExpr {
 			o = append(o, expr.ConstExpr("CI"), expr.ConstExpr("CS"), expr.ConstExpr("CB"))
+		}
+		return o
+	}
+	for i, p := range sc.Progs {
+		o := typedOpts(p)
+		if p.NoEnv {
+			o = []expr.Option{patchOpt}
+			if !p.Optimize {
+				o = append(o, expr.Optimize(false))
+			}
+			if _, co := sutCompile(p.Src(), o...); co.Failed() {
+				o = typedOpts(p) // the untyped compiler does not take this program
+			} else {
+				ctx.Count("untyped_programs", 1)
+			}
 		}
 		optsOf[i] = o
 	}
